@@ -165,6 +165,10 @@ func plans(thorough bool) []worldPlan {
 	for _, log := range seqs([]string{"msg", "qbot"}, 1, commonLen) {
 		add(log, depth, func(c *updsim.WorldCfg) { c.Bot = true })
 	}
+	// qts-bearing other_updates mixed with new_encrypted_messages in one difference (non-adjacent qts in other_updates)
+	for _, log := range seqs([]string{"enc", "qbot"}, 2, commonLen-1) {
+		add(log, depth, func(c *updsim.WorldCfg) { c.Bot = true })
+	}
 	// channel logs (one tracked channel) with and without common traffic, sliced or not
 	for _, ch := range seqs([]string{"cmsg", "cdel"}, 1, chanLen) {
 		for _, common := range [][]string{nil, {"msg"}} {
